@@ -310,7 +310,8 @@ fn run_one(cfg: &Cfg, tier: Tier, i: u64, seed: u64, c: &mut Counters) -> Vec<Vi
         })
     });
     c.inc("histories");
-    c.add("decisions", r.sched.decisions);
+    c.add("stm_attempts", r.stm.attempts);
+    c.add("stm_commits", r.stm.commits);
     c.add("f2_fired", r.stm.forced_failures);
     if !f2.is_empty() {
         c.inc("f2_configured");
@@ -435,6 +436,12 @@ fn cfg_for(prop: &str) -> Cfg {
         "C05" => Cfg { known: Default::default(), prop: "C05", dim: 3, flavour: Flavour::Sews, quick_runs: 25_000, thorough_runs: 2_500_000, max_steps: 25,
             rule: "one evaluation = one seeded history of sew/unsew-heavy calls on a closed-face polyhedral 3-map with 1-4 attribute kinds; every successful sew/unsew is compared with the partition-based migration oracle, unsews on fully embedded meshes must succeed; distinct_nontrivial = distinct full map states reached" },
         _ => panic!("no history configuration for {prop}"),
+    }
+}
+
+pub fn digest(prop: &str, n: u64) {
+    for cfg in &cfgs_for(prop) {
+        digest_runs(&format!("{}-{}d", cfg.prop, cfg.dim), n, |i, seed, c| run_one(cfg, Tier::Quick, i, seed, c));
     }
 }
 
